@@ -208,6 +208,27 @@ def _check(pid, P, tier, seed, bdir, ev):
             pn = [n for (kd, n) in cc.get('clauses', []) if kd == 'ensures' and n.startswith('p_')]
             if pn:
                 pclauses[ck] = pn
+        # functions that did not exist when the contracts were written have no contract: a caller that now delegates to one cannot be
+        # proved, which is a lost anchor (undecided), not a violation
+        if tlock and uname in tlock.get('known_functions', {}):
+            known_f = set(tlock['known_functions'][uname])
+            newf = [f for f in meta['functions'] if f['key'] not in known_f]
+            if newf:
+                cov.setdefault('new_functions', {})[uname] = [VR.short(f['key']) for f in newf][:20]
+                byk0 = {f['key']: f for f in meta['functions']}
+                for x in failures:
+                    f0 = byk0.get(x.fn_key)
+                    if not (x.verdict and f0):
+                        continue
+                    try:
+                        src = '\n'.join(open(os.path.join(REPO, f0['file'])).read().split('\n')[f0['lines'][0] - 1:f0['lines'][1]])
+                    except Exception:
+                        continue
+                    used = [nf for nf in newf if re.search(r'\b%s\s*(::<[^>]*>)?\s*\(' % re.escape(nf['key'].split(' :: ')[-1]), src)]
+                    if used:
+                        x.verdict = False
+                        x.message = 'calls %s, a function that has no contract (it did not exist when the contracts were written): %s' % (
+                            ', '.join(VR.short(nf['key']) for nf in used[:3]), x.message)
         # which functions serve this property
         tags = lemma_tags(cfg)
         pids = set([pid] + list(P.get('include', [])))   # a property may rest on the functions/lemmas of others (e.g. C01 on key generation)
